@@ -279,12 +279,13 @@ def run(res: Results, idx: Index, tier: str) -> None:
 
     _rule_b(res, idx, cg)
     _rule_c(res, idx, cg)
-    from .c01_roles import run_axis_role_params, run_mixed_dtype_operands, run_pattern_shape_checks, run_promotion_overrides, run_roles
+    from .c01_roles import run_axis_role_params, run_irfft_length_conservation, run_mixed_dtype_operands, run_pattern_shape_checks, run_promotion_overrides, run_roles
     run_roles(res, idx, plugins)
     run_pattern_shape_checks(res, idx)
     run_mixed_dtype_operands(res, idx, plugins)
     run_promotion_overrides(res, idx)
     run_axis_role_params(res, idx)
+    run_irfft_length_conservation(res, idx)
     _rule_i(res, idx, tier)
 
 
